@@ -378,14 +378,16 @@ var gcsPrograms = []string{
 	"let z = -x - -1; # trailing\n{ let w = null; }\nlet s = \"q\\\"uote\";",
 }
 
-
 // genExpr: a random well-formed gcs expression over the whole expression grammar (unary and
 // binary operators, calls on any callee, parentheses, maps, function literals), with a random
 // layout.  Used by the parse component so that operator/call grouping is compared tree-for-tree.
 func genExpr(r *rand.Rand, d int) string {
-	sp := func() string { return pick(r, "", " ", " ", "  ", "\n", " # c\n", "\t", "#\n", " //\n", "// \n", "#\r\n") }
+	sp := func() string {
+		return pick(r, "", " ", " ", "  ", "\n", " # c\n", "\t", "#\n", " //\n", "// \n", "#\r\n")
+	}
 	if d <= 0 || r.Intn(4) == 0 {
-		return pick(r, "x", "y1", "f", "foo-bar", "1", "23", "4.5", ".5", "-7", "3.", "\"s\"", "true", "false", "null", "a%")
+		return pick(r, "x", "y1", "f", "foo-bar", "1", "23", "4.5", ".5", "-7", "3.", "\"s\"", "true", "false", "null", "a%",
+			"010", "08", "0100", "-012", "007", "00", "0.50", "1e3", "0x10", "9223372036854775807", "9223372036854775808", "+5", "1_000")
 	}
 	switch r.Intn(12) {
 	case 0, 1, 2:
@@ -485,6 +487,9 @@ func (g gcsComp) Gen(r *rand.Rand, tier string, n int) []*wire.Case {
 	add("d-empty", "", " ", "\n", ";")
 	add("d-nonascii-digit", "let x = -٣;", "let x = .٣;", "x٣;", "-٣", ".٣", "- ٣", "let y = -١٢ + .٥;")
 	add("d-numbers", "1", "-1", ".5", "-.5", "1.", "1.5.2", "- 1", "1-1", "a-1", "a -1", "a - 1", "3 .", ".", "-", "--1")
+	// spellings of numbers: a literal is decimal however it is written
+	add("d-number-spellings", "let x = 010;", "let x = 08;", "let x = 019;", "let x = 0100;", "let x = -012;", "let x = 007;", "let x = 00;", "let x = 0;", "f(1 + 010 * 2);", "let x = 010.5;", "let x = 0.50;",
+		"let x = 0x10;", "let x = 1e3;", "let x = 0b1;", "let x = 0o7;", "let x = 1_000;", "let x = +5;", "let x = 9223372036854775807;", "let x = 9223372036854775808;", "let x = 99999999999999999999;", "let x = 000000000000000000001;")
 	add("d-strings", "\"a\"", "\"a", "\"a\\", "\"a\\\n\"", "\"a\nb\"", "\"\\\"\"", "\"é日本\"")
 	add("d-brackets", ")", "]", "}", "(", "((((", "()", "[]]", "{}}", "(]")
 	add("d-comments", "# only", "// only", "x; # c\ny;", "x // c", "/", "/ /", "#\n#\n", "x; #\ny;", "//\nlet y = 1;", "let x = 1;\n//\nlet y = x + 2;\nf(x, y);\n", "if x { //\n y = 1; }", "let z = 1 + #\n 2;",
